@@ -7,10 +7,13 @@
     C <layout N|S|P> <nExtra> <nameA> <nameB> <zone1> <zone2> [<extra>...]
     O <type> <ha> <active> <name>
     H <name>            | <sdbm> | <sdbm>
-    B <node> <start>    | <obsA> | <obsB>        obs = `-` (node not started) or `p:pc:rc:sp,...` per object
+    B <node> <start>    | <obsA> | <obsB>        obs = `-` (node not started) or `p:pc:rc:sp:ex:st,...` per object
     K <node> <peer> <up>| <obsA> | <obsB>
     U <node> <now>      | <obsA> | <obsB>
-    T <node> <now>      | f=<0|1> <obsA> | f=<0|1> <obsB>
+    X <node> <obj> <now>| <obsA> | <obsB>        two overlapping authority runs = one
+    N <node> <now>      | <obsA> | <obsB>        notification requested
+    D <node> <obj> <now>| <obsA> | <obsB>        object <obj> due for a check
+    T <node> <now>      | f=<seq> <obs>... | f=- <obs>     seq over a (authority timer) / n (notification timer), or -
   Output: MISMATCH / SPECFAIL / BADLINE lines and a final STATS line.
 -/
 import IcingaModel.Common.Proto
@@ -42,12 +45,14 @@ structure ImplObj where
 
 def parseObj (s : String) : Option ImplObj :=
   match s.splitOn ":" with
-  | [p, pc, rc, sp] => do
+  | [p, pc, rc, sp, ex, st] => do
     let p ← parseBool? p
     let pc ← parseNat? pc
     let rc ← parseNat? rc
     let sp ← parseNat? sp
-    pure { o := { paused := p, pauses := pc, resumes := rc }, setp := sp }
+    let ex ← parseNat? ex
+    let st ← parseNat? st
+    pure { o := { paused := p, pauses := pc, resumes := rc, execs := ex, stash := st }, setp := sp }
   | _ => none
 
 /-- `none` = unparsable, `some none` = node not started, `some (some l)` = observation. -/
@@ -56,10 +61,10 @@ def parseObs (s : String) : Option (Option (List ImplObj)) :=
   else (s.splitOn ",").mapM parseObj |>.map some
 
 def showObjs (l : List Obj) : String :=
-  ",".intercalate (l.map fun o => s!"{showBool o.paused}:{o.pauses}:{o.resumes}:{o.pauses + o.resumes}")
+  ",".intercalate (l.map fun o => s!"{showBool o.paused}:{o.pauses}:{o.resumes}:{o.pauses + o.resumes}:{o.execs}:{o.stash}")
 
 def showImpl (l : List ImplObj) : String :=
-  ",".intercalate (l.map fun i => s!"{showBool i.o.paused}:{i.o.pauses}:{i.o.resumes}:{i.setp}")
+  ",".intercalate (l.map fun i => s!"{showBool i.o.paused}:{i.o.pauses}:{i.o.resumes}:{i.setp}:{i.o.execs}:{i.o.stash}")
 
 structure DSt where
   layout : Layout := .noZone
@@ -88,6 +93,13 @@ structure DSt where
   vTrue : Nat := 0
   vFalse : Nat := 0
   settledRows : Nat := 0
+  races : Nat := 0
+  requests : Nat := 0
+  ntimers : Nat := 0
+  dues : Nat := 0
+  notifExecs : Nat := 0
+  checkExecs : Nat := 0
+  silentChecks : Nat := 0
   casesN : Nat := 0
   casesS : Nat := 0
   casesP : Nat := 0
@@ -107,7 +119,7 @@ def zoneFor (d : DSt) (s : Side) : Option (List Name) :=
 
 def mkNode (d : DSt) (s : Side) (start : Int) : Node :=
   { zone := zoneFor d s, self := d.names.getD (sideIdx s) [], conn := [], start := start,
-    objs := d.cfgs.toList.map fresh }
+    objs := d.cfgs.toList.map fresh, updated := false, endpoint := d.layoutCh != "N" }
 
 def getNode (d : DSt) : Side → Option Node | .A => d.nodeA | .B => d.nodeB
 def setNode (d : DSt) (s : Side) (n : Option Node) : DSt :=
@@ -144,7 +156,7 @@ def countVerdicts (d : DSt) (node : Node) (now : Int) : DSt := Id.run do
   return d
 
 /-- Specification on the implementation's observations, object by object. -/
-def runSpec (d : DSt) (n : Nat) (e : Ev) (ia ib : Option (List ImplObj)) : IO DSt := do
+def runSpec (d : DSt) (n : Nat) (ef : Nat → Ev) (ia ib : Option (List ImplObj)) : IO DSt := do
   if !d.specOn then return d
   let mut d := d
   let mut specs := d.specs
@@ -156,7 +168,12 @@ def runSpec (d : DSt) (n : Nat) (e : Ev) (ia ib : Option (List ImplObj)) : IO DS
     let some sp := specs[i]? | continue
     let oa := match ia with | some l => (l[i]?.map (·.o)).getD (fresh c) | none => fresh c
     let ob := match ib with | some l => (l[i]?.map (·.o)).getD (fresh c) | none => fresh c
+    let e := ef i
     let (r, sp') := specStep d.layout c sp e oa ob
+    -- evidence: work events that hit a paused object
+    let prevOwn := match e.side with | .A => sp.a.prev | .B => sp.b.prev
+    let isWork := match e with | .request _ => c.kind == .notification | .ntimer _ => c.kind == .notification | .due _ => c.kind == .checkable | _ => false
+    if isWork && prevOwn.paused then d := { d with silentChecks := d.silentChecks + 1 }
     specs := specs.setIfInBounds i sp'
     if touched c && sp'.a.mode == .paired && sp'.b.mode == .paired then
       anySettled := true
@@ -186,8 +203,46 @@ def split3 (ws : List String) : List String × List String × List String :=
   (p, a, b)
 
 /-- Interpret one event line on the model: new driver state and the event as the specification sees it. -/
-def applyEvent (d : DSt) (s : Side) (op : String) (pre : List String) (fired : Option Bool) : Option (DSt × Ev) :=
+def applyEvent (d : DSt) (s : Side) (op : String) (pre : List String) : Option (DSt × (Nat → Ev)) :=
+  let all (r : Option (DSt × Ev)) : Option (DSt × (Nat → Ev)) := r.map fun (d, e) => (d, fun _ => e)
   match op, pre with
+  | "X", [_, _, _idx, now] =>
+    -- two overlapping UpdateObjectAuthority() runs are ONE authority decision
+    match parseInt? now, getNode d s with
+    | some now, some node =>
+      let d := countVerdicts d node now
+      let d := setNode d s (some (node.update d.cfgs.toList now))
+      some ({ d with updates := d.updates + 1, races := d.races + 1 }, fun _ => Ev.upd s now)
+    | some _, none => some (d, fun _ => Ev.idle s)
+    | none, _ => none
+  | "N", [_, _, _now] =>
+    match getNode d s with
+    | some node =>
+      let d := setNode d s (some (node.request d.cfgs.toList))
+      some ({ d with requests := d.requests + 1 }, fun _ => Ev.request s)
+    | none => some (d, fun _ => Ev.idle s)
+  | "D", [_, _, idx, _now] =>
+    match parseNat? idx, getNode d s with
+    | some idx, some node =>
+      let d := setNode d s (some (node.due d.cfgs.toList idx))
+      some ({ d with dues := d.dues + 1 }, fun i => if i == idx then Ev.due s else Ev.idle s)
+    | some _, none => some (d, fun _ => Ev.idle s)
+    | none, _ => none
+  | "Ta", [now] =>
+    match parseInt? now, getNode d s with
+    | some now, some node =>
+      let d := countVerdicts d node now
+      let d := setNode d s (some (node.update d.cfgs.toList now))
+      some ({ d with updates := d.updates + 1, timerFired := d.timerFired + 1 }, fun _ => Ev.upd s now)
+    | _, _ => none
+  | "Tn", [_] =>
+    match getNode d s with
+    | some node =>
+      let d := setNode d s (some (node.ntimer d.cfgs.toList))
+      some ({ d with ntimers := d.ntimers + 1 }, fun _ => Ev.ntimer s)
+    | none => none
+  | "T-", [_] => some ({ d with timerIdle := d.timerIdle + 1 }, fun _ => Ev.idle s)
+  | _, _ => all <| match op, pre with
   | "B", [_, _, st] =>
     match parseInt? st with
     | some st =>
@@ -217,15 +272,20 @@ def applyEvent (d : DSt) (s : Side) (op : String) (pre : List String) (fired : O
       some ({ d with updates := d.updates + 1 }, Ev.upd s now)
     | some _, none => some (d, Ev.idle s)
     | none, _ => none
-  | "T", [_, _, now] =>
-    match parseInt? now, getNode d s, fired with
-    | some now, some node, some true =>
-      let d := countVerdicts d node now
-      let d := setNode d s (some (node.update d.cfgs.toList now))
-      some ({ d with updates := d.updates + 1, timerFired := d.timerFired + 1 }, Ev.upd s now)
-    | some _, _, some false => some ({ d with timerIdle := d.timerIdle + 1 }, Ev.idle s)
-    | _, _, _ => none
   | _, _ => none
+
+/-- Compare both nodes, run the specification, resynchronise the model on the implementation after a
+    disagreement (so that one divergence is reported once). -/
+def finish (d : DSt) (n : Nat) (ef : Nat → Ev) (ia ib : Option (List ImplObj)) : IO DSt := do
+  let mut d := d
+  d ← cmpNode d n "A" d.nodeA ia
+  d ← cmpNode d n "B" d.nodeB ib
+  d ← runSpec d n ef ia ib
+  let resync (m : Option Node) (io : Option (List ImplObj)) : Option Node :=
+    match m, io with
+    | some node, some il => some { node with objs := il.map (·.o) }
+    | m, _ => m
+  return { d with nodeA := resync d.nodeA ia, nodeB := resync d.nodeB ib }
 
 def handle (d : DSt) (n : Nat) (line : String) : IO DSt := do
   let ws := words line
@@ -248,10 +308,11 @@ def handle (d : DSt) (n : Nat) (line : String) : IO DSt := do
         | _ => if nx > 0 then { d with casesExtra := d.casesExtra + 1 } else { d with casesP := d.casesP + 1 }
       return d
     | _, _ => bad
-  | ["O", _ty, ha, act, nm] =>
+  | ["O", ty, ha, act, nm] =>
     match parseBool? ha, parseBool? act, unhex nm with
     | some ha, some act, some nm =>
-      let c : ObjCfg := { name := nm, runOnce := !ha, active := act }
+      let kind := if ty == "n" then Kind.notification else if ty == "h" || ty == "s" then Kind.checkable else Kind.other
+      let c : ObjCfg := { name := nm, runOnce := !ha, active := act, kind := kind }
       return { d with cfgs := d.cfgs.push c, specs := d.specs.push (specInit c), objects := d.objects + 1 }
     | _, _, _ => bad
   | "H" :: nm :: rest =>
@@ -267,32 +328,44 @@ def handle (d : DSt) (n : Nat) (line : String) : IO DSt := do
     | _, _, _ => bad
   | op :: sd :: rest0 =>
     let (pre, a, b) := split3 (op :: sd :: rest0)
-    let (fa, a) := stripF a
-    let (fb, b) := stripF b
-    match parseSide sd, a, b with
-    | some s, [oa], [ob] =>
-      match parseObs oa, parseObs ob with
-      | some ia, some ib =>
-        let mut d := { d with steps := d.steps + 1 }
-        let fired := match s with | .A => fa | .B => fb
-        match applyEvent d s op pre fired with
-        | none => IO.println s!"BADLINE line={n}"; return d
-        | some (d0, ev) =>
-          d := d0
-          d ← cmpNode d n "A" d.nodeA ia
-          d ← cmpNode d n "B" d.nodeB ib
-          d ← runSpec d n ev ia ib
-          -- resynchronise the model on the implementation after a disagreement (report once)
-          let resync (m : Option Node) (io : Option (List ImplObj)) : Option Node :=
-            match m, io with
-            | some node, some il => some { node with objs := il.map (·.o) }
-            | m, _ => m
-          return { d with nodeA := resync d.nodeA ia, nodeB := resync d.nodeB ib }
-      | _, _ => bad
-    | _, _, _ => bad
+    match parseSide sd with
+    | none => bad
+    | some s =>
+      let d := { d with steps := d.steps + 1 }
+      if op == "T" then
+        -- `f=<seq> obs...` on the addressed node, `f=- obs` on the other one
+        let (own, oth) := match s with | .A => (a, b) | .B => (b, a)
+        match own, oth, pre with
+        | fseq :: obsOwn, [_, obsOth], [_, _, now] =>
+          let seq := (fseq.drop 2).toString.toList
+          match obsOwn.mapM parseObs, parseObs obsOth with
+          | some ownL, some io =>
+            let subs : List (String × Option (List ImplObj)) :=
+              if seq == ['-'] then ownL.map (fun o => ("T-", o))
+              else List.zipWith (fun ch o => ("T" ++ ch.toString, o)) seq ownL
+            if subs.isEmpty || (seq != ['-'] && seq.length != ownL.length) then bad else
+            let mut d := d
+            for (sub, iown) in subs do
+              let (ia, ib) := match s with | .A => (iown, io) | .B => (io, iown)
+              match applyEvent d s sub [now] with
+              | none => IO.println s!"BADLINE line={n}"
+              | some (d0, ef) => d ← finish d0 n ef ia ib
+            return d
+          | _, _ => bad
+        | _, _, _ => bad
+      else
+        match a, b with
+        | [oa], [ob] =>
+          match parseObs oa, parseObs ob with
+          | some ia, some ib =>
+            match applyEvent d s op pre with
+            | none => bad
+            | some (d0, ef) => finish d0 n ef ia ib
+          | _, _ => bad
+        | _, _ => bad
   | _ => bad
 
 def main : IO Unit := do
   let stdin ← IO.getStdin
   let d ← foldLines stdin handle ({} : DSt)
-  IO.println s!"STATS cases={d.caseNo} steps={d.steps} updates={d.updates} timer_fired={d.timerFired} timer_idle={d.timerIdle} boots={d.boots} links={d.links} hashes={d.hashes} hashes_with_negative_char={d.hashNeg} objects={d.objects} object_observations={d.objChecks} verdict_keep={d.vKeep} verdict_true={d.vTrue} verdict_false={d.vFalse} settled_rows={d.settledRows} cases_nozone={d.casesN} cases_single={d.casesS} cases_pair={d.casesP} cases_pair_extra={d.casesExtra} nontrivial={d.nontrivial} mismatches={d.mismatches} specfails={d.specfails}"
+  IO.println s!"STATS cases={d.caseNo} steps={d.steps} updates={d.updates} timer_fired={d.timerFired} timer_idle={d.timerIdle} boots={d.boots} links={d.links} hashes={d.hashes} hashes_with_negative_char={d.hashNeg} objects={d.objects} object_observations={d.objChecks} verdict_keep={d.vKeep} verdict_true={d.vTrue} verdict_false={d.vFalse} settled_rows={d.settledRows} races={d.races} requests={d.requests} notification_timer_runs={d.ntimers} due_checks={d.dues} work_events_on_paused_object={d.silentChecks} cases_nozone={d.casesN} cases_single={d.casesS} cases_pair={d.casesP} cases_pair_extra={d.casesExtra} nontrivial={d.nontrivial} mismatches={d.mismatches} specfails={d.specfails}"
